@@ -347,6 +347,7 @@ class Function:
         if self.body is not None:
             from . import normal
             normal.normalise(self)
+            normal.rename_to_baseline(self)
 
     @property
     def key(self):
